@@ -392,7 +392,8 @@ CLAIMED = {
             '(unsat is sound for the real functions; sat is reported only '
             'when the concrete replay reproduces it); floats as reals '
             '(outermost-sample round trip outside the claim); GaussianPRF '
-            'only at theta = 0',
+            'block sums only at theta = 0 (per-pixel factorisation, sign, '
+            'symmetry, linearity at every angle)',
             TECH),
     'C06': ('3/C06',
             'For 6 concrete blended scenes (incl. label gaps with an '
